@@ -57,6 +57,19 @@ def enumerate_cases(tier):
     for big in bigs:
         for docs in ([big], [big, small], [small, big], [small, big, small], [big, big]):
             yield {"docs": docs, "order": list(range(len(docs))), "mode": "normal", "missing_at": 0}
+    other = {"kind": "table", "page": {"nrow": 40, "orientation": "landscape"},
+             "sections": [{"df": {"cols": [{"name": "@N0", "dtype": "str", "values": ["t0", "t1", "t2"]}]}, "body": {}, "headers": "default"}]}
+    for names in sorted(NAMES):
+        for docs in ([small], [small, other], [other, small, other]):
+            for mode in ("normal", "missing"):
+                yield {"docs": docs, "order": list(range(len(docs))), "mode": mode, "missing_at": len(docs) - 1, "names": names}
+
+
+# file names that are legal paths but read as patterns (glob / regex / format / shell) by careless code; each comes with a look-alike
+# DECOY file in the same directory that such a reading would pick up instead of / in addition to the named file
+NAMES = {"brackets": ("t-ae[{k}].rtf", "t-ae{k}.rtf"), "question": ("in?{k}.rtf", "inX{k}.rtf"), "star": ("in*{k}.rtf", "in-more-{k}.rtf"),
+         "braces_percent": ("r{{0}}%s{k}.rtf", "r0%s{k}.rtf"), "spaces_unicode": ("t\u00e4 b {k} .rtf", "t\u00e4 b {k}.rtf")}
+DECOY = b"{\\rtf1\\ansi\\deff0 {\\fonttbl{\\f0 Times New Roman;}}\n\\paperw12240\\paperh15840\n{\\pard DECOY FILE\\par}\n}"
 
 
 @st.composite
@@ -77,7 +90,10 @@ def _case(draw):
     if n >= 2 and draw(st.integers(0, 9)) < 2:
         order.append(draw(st.integers(0, n - 1)))      # the same file listed twice
     mode = draw(st.sampled_from(["normal"] * 7 + ["missing", "empty", "preexisting"]))
-    return {"docs": docs, "order": order, "mode": mode, "missing_at": draw(st.integers(0, n))}
+    case = {"docs": docs, "order": order, "mode": mode, "missing_at": draw(st.integers(0, n))}
+    if draw(st.integers(0, 9)) < 3:
+        case["names"] = draw(st.sampled_from(sorted(NAMES)))
+    return case
 
 
 def strategy(tier):
@@ -130,6 +146,10 @@ def check(case) -> Result:
     try:
         for k, rec in enumerate(case["docs"]):
             p = os.path.join(work, f"in{k}.rtf")
+            if case.get("names"):
+                p = os.path.join(work, NAMES[case["names"]][0].format(k=k))
+                with open(os.path.join(work, NAMES[case["names"]][1].format(k=k)), "wb") as f:
+                    f.write(DECOY)
             built = R.build(rec, workdir=work)
             with contextlib.redirect_stdout(io.StringIO()):
                 built.doc.write_rtf(p)
@@ -167,7 +187,12 @@ def check(case) -> Result:
             f.write(b"PREVIOUS CONTENT")
     if mode == "missing":
         bad = list(inputs)
-        bad.insert(min(case["missing_at"], len(bad)), os.path.join(work, "nope", "missing.rtf"))
+        missing = os.path.join(work, "nope", "missing.rtf")
+        if case.get("names"):       # the named file does not exist, its look-alike does
+            missing = os.path.join(work, NAMES[case["names"]][0].format(k=99))
+            with open(os.path.join(work, NAMES[case["names"]][1].format(k=99)), "wb") as f:
+                f.write(DECOY)
+        bad.insert(min(case["missing_at"], len(bad)), missing)
         try:
             assemble_rtf(bad, outp)
             res.fail("missing_input", "no_exception", "")
@@ -225,7 +250,7 @@ def check(case) -> Result:
                 res.fail("geometry", f"{pos_kind(k)}", f"input {k} starts on page {starts[k] + 1}: {[(key, g_out.get(key), g_in.get(key)) for key in bad][:3]}")
     multi = any(len(parsed[i].pages) > 1 for i in order)
     geoms = {tuple(parsed[i].geom[0].get(k) for k in GEOM) for i in order}
-    res.labels = [f"inputs={min(len(inputs), 4)}", "kinds=" + tag, "mode=" + mode, "multi_page_input" if multi else "single_page_inputs",
+    res.labels = [f"inputs={min(len(inputs), 4)}", "names=" + case.get("names", "plain"), "kinds=" + tag, "mode=" + mode, "multi_page_input" if multi else "single_page_inputs",
                   "geometries=" + str(min(len(geoms), 3))]
     res.nontrivial = len(inputs) >= 2 and (multi or len(set(kinds)) > 1 or len(geoms) > 1)
     return res
